@@ -111,6 +111,7 @@ extern "C" int h_c17() {
   int wrote = 0, loaded = 0;
   try { c.write("out.c3d"); wrote = 1; } catch (std::exception&) { wrote = 0; } 
   __vp_tag("outcome"); __vp_obs_u64("wrote", wrote);
+  if (wrote && __vp_cfg("obsfile")) { __vp_tag("files"); __vp_obs_file("out.c3d"); __vp_tag("outcome1"); }
   if (wrote) {
     try { ezc3d::c3d d("out.c3d"); loaded = 1; __vp_obs_u64("loaded", 1); dump_all(d, "post", false); }
     catch (std::exception&) { __vp_tag("outcome2"); __vp_obs_u64("loaded", 0); }
